@@ -413,6 +413,7 @@ func c05Arith(r *run.Run) {
 		func(c *explore.Ctx) {
 			p := (&t2prog{}).nums(0, 0).op(oRmoveto)
 			name := ""
+			var lsubrs, gsubrs [][]byte
 			switch k := c.Choose(5, "family"); k {
 			case 0:
 				o := unary[c.Choose(len(unary), "unary operator")]
@@ -443,8 +444,36 @@ func c05Arith(r *run.Run) {
 			case 3:
 				name = "put/get"
 				slot := explore.Pick(c, "slot", 0.0, 1.0, 31.0)
-				p.num(vals[c.Choose(len(vals), "value")]).num(slot).op(1220)
-				if c.Bool("get same slot") {
+				// the transient array lives as long as the charstring: across subroutine calls and returns
+				where := c.Choose(5, "put/get across subroutines")
+				noop := (&t2prog{}).op(oReturn)
+				v := vals[c.Choose(len(vals), "value")]
+				putSub := (&t2prog{}).num(v).num(slot).op(1220).op(oReturn)
+				getSub := (&t2prog{}).num(slot).op(1221).op(oReturn)
+				switch where {
+				case 0: // all in the main program
+					p.num(v).num(slot).op(1220)
+				case 1: // a local subroutine returns between put and get
+					p.num(v).num(slot).op(1220).num(-107).op(oCallsubr)
+					lsubrs = [][]byte{noop.code}
+					name = "put/get across a subroutine return"
+				case 2: // put inside a global subroutine, get in the main program
+					p.num(-107).op(oCallgsubr)
+					gsubrs = [][]byte{putSub.code}
+					name = "put in a subroutine, get outside"
+				case 3: // put in the main program, get inside a local subroutine
+					p.num(v).num(slot).op(1220)
+					name = "put outside, get in a subroutine"
+				case 4: // put, then a global subroutine that itself calls a local one, then get
+					p.num(v).num(slot).op(1220).num(-107).op(oCallgsubr)
+					gsubrs = [][]byte{(&t2prog{}).num(-107).op(oCallsubr).op(oReturn).code}
+					lsubrs = [][]byte{noop.code}
+					name = "put/get across nested subroutine returns"
+				}
+				if where == 3 {
+					p.num(-107).op(oCallsubr)
+					lsubrs = [][]byte{getSub.code}
+				} else if c.Bool("get same slot") {
 					p.num(slot).op(1221)
 				} else {
 					p.num(7).num(5).op(1220).num(5).op(1221)
@@ -465,7 +494,7 @@ func c05Arith(r *run.Run) {
 			}
 			p.op(oEndchar)
 			c.Sample(func() any { return p.desc })
-			t2Compare(c, name, t2Case{code: p.code}, p.desc)
+			t2Compare(c, name, t2Case{code: p.code, lsubrs: lsubrs, gsubrs: gsubrs}, p.desc)
 		})
 }
 
